@@ -24,6 +24,21 @@ def build_harness():
     return time.time() - t0
 
 
+VH_ASAN = os.path.join(HARNESS, "target-asan", "x86_64-unknown-linux-gnu", "asan", "vh")
+
+
+def build_asan():
+    """Builds the harness (and /repo) with AddressSanitizer on the nightly toolchain (thorough tier of C20)."""
+    env = dict(os.environ, CARGO_NET_OFFLINE="true",
+               RUSTFLAGS="-Zsanitizer=address --cfg constriction_verif --check-cfg cfg(constriction_verif)")
+    p = subprocess.run(["cargo", "+nightly", "build", "--offline", "--quiet", "--profile", "asan", "--target", "x86_64-unknown-linux-gnu",
+                        "--target-dir", "target-asan"], cwd=HARNESS, env=env, stdout=subprocess.PIPE, stderr=subprocess.STDOUT, text=True)
+    if p.returncode != 0 or not os.path.exists(VH_ASAN):
+        sys.stderr.write(p.stdout[-3000:])
+        raise ToolError("AddressSanitizer build of the harness failed")
+    return VH_ASAN
+
+
 class Ctx:
     def __init__(self, prop, tier, seed, level="model_checking"):
         self.prop, self.tier, self.seed, self.level = prop, tier, seed, level
@@ -143,7 +158,7 @@ class Ctx:
         return st
 
     # ------------------------------------------------------------------ harness
-    def vh(self, cmd, mode=None, infile=None, extra=(), timeout=1800):
+    def vh(self, cmd, mode=None, infile=None, extra=(), timeout=1800, binary=None):
         """Runs the harness.  A case that aborts the process (violated unsafe precondition, double panic: C20 territory)
         is recorded as a disagreement and the run is repeated without it (at most 12 times)."""
         self.nseq += 1
@@ -151,7 +166,7 @@ class Ctx:
         skip = []
         aborts = []
         while True:
-            args = ["timeout", str(timeout), VH, cmd, "--out", out, "--seed", str(self.seed)]
+            args = ["timeout", str(timeout), binary or VH, cmd, "--out", out, "--seed", str(self.seed)]
             if mode:
                 args += ["--mode", mode]
             if infile:
@@ -178,6 +193,12 @@ class Ctx:
                     return {"cases": 0, "checks": 0, "aborts": aborts}
                 skip.append(ab["index"])
                 continue
+            if p.returncode != 0 and "AddressSanitizer" in (p.stdout or ""):
+                m = re.search(r"ERROR: AddressSanitizer: (.*)", p.stdout)
+                frames = re.findall(r"#\d+ 0x[0-9a-f]+ in (\S+).*?(/repo/src/\S+)", p.stdout)[:4]
+                self.violation("process abort: AddressSanitizer: %s; frames in the library: %s" % (m.group(1) if m else "?", frames),
+                               {"k": "asan", "cmd": cmd, "mode": mode, "input": infile}, cmd=cmd, mode=mode)
+                return {"cases": 0, "checks": 0, "aborts": [], "asan": True}
             if p.returncode != 0 or not os.path.exists(out):
                 sys.stderr.write(p.stdout[-4000:])
                 raise ToolError("harness failed: %s (rc %d)" % (" ".join(args), p.returncode))
